@@ -106,6 +106,11 @@ Proof.
   apply last_view_all_eq; [exact E|discriminate].
 Qed.
 
+Lemma intersected_solo c s ks : fix_solo c = false -> intersected c s ks <> [] -> s <> [].
+Proof.
+  unfold intersected. cbv zeta. intros Hf H ->. rewrite Hf in H. simpl in H. apply H. reflexivity.
+Qed.
+
 Lemma my_view_of_in c ks x : In x (my_view_of c ks) <-> x = self c \/ In x ks.
 Proof. unfold my_view_of. rewrite isort_in. simpl. intuition. Qed.
 
@@ -317,11 +322,13 @@ Lemma query_list_shape c s ks L :
   NoDup ks -> ~ In (self c) ks -> NoDup (keys s) -> incl (keys s) ks ->
   L = isort (intersected c s ks) -> length (intersected c s ks) = expected c ->
   ssorted L /\ length L = expected c /\ (1 <= expected c -> In (self c) L)%nat /\ incl L (self c :: ks) /\
-  (fix_onepass c = true -> forall b, In b L -> b <> self c -> In (b, L) s).
+  (fix_onepass c = true -> forall b, In b L -> b <> self c -> In (b, L) s) /\
+  (fix_solo c = false -> L = [] \/ (2 <= length L)%nat).
 Proof.
   intros Hnd Hself Hnds Hincl -> Hlen.
   destruct (intersected c s ks) as [|x m'] eqn:Ei.
-  { simpl in *. split; [constructor|]. split; [exact Hlen|]. split; [lia|]. split; [intros ? []|intros _ ? []]. }
+  { simpl in *. split; [constructor|]. split; [exact Hlen|]. split; [lia|]. split; [intros ? []|].
+    split; [intros _ ? []|auto]. }
   assert (Hne : intersected c s ks <> []) by (rewrite Ei; discriminate).
   destruct (intersected_nonempty c s ks Hne) as [Hm Hall]. rewrite Ei in Hm.
   set (K := if fix_onepass c then keys s else ks) in *.
@@ -334,7 +341,13 @@ Proof.
   split; [exact Hs|]. split; [rewrite <- Hm; exact Hlen|].
   split. { intros _. apply my_view_of_in. auto. }
   split. { intros x0 Hx. apply my_view_of_in in Hx. destruct Hx as [->|Hx]; [left; reflexivity|right; apply HK3, Hx]. }
-  intros Hfx b Hb Hbs. apply my_view_of_in in Hb. destruct Hb as [Hb|Hb]; [contradiction|].
-  unfold K in Hb. rewrite Hfx in Hb. destruct (keys_in _ _ Hb) as [v Hv].
-  rewrite all_eq_spec in Hall. rewrite <- (Hall b v Hv). exact Hv.
+  split.
+  { intros Hfx b Hb Hbs. apply my_view_of_in in Hb. destruct Hb as [Hb|Hb]; [contradiction|].
+    unfold K in Hb. rewrite Hfx in Hb. destruct (keys_in _ _ Hb) as [v Hv].
+    rewrite all_eq_spec in Hall. rewrite <- (Hall b v Hv). exact Hv. }
+  intros Hfs. right. pose proof (intersected_solo c s ks Hfs Hne) as Hs0.
+  destruct s as [|[k v] s']; [congruence|].
+  assert (HkK : In k K).
+  { unfold K. destruct (fix_onepass c); [left; reflexivity|apply Hincl; left; reflexivity]. }
+  unfold my_view_of. rewrite isort_length. simpl. destruct K; [contradiction|simpl; lia].
 Qed.
